@@ -103,8 +103,9 @@ static coap_response_t hnd_resp(coap_session_t *s, const coap_pdu_t *sent, const
 static void hnd_nack(coap_session_t *s, const coap_pdu_t *sent, const coap_nack_reason_t reason,
                      const coap_mid_t mid) {
   (void)s; (void)mid;
-  coap_bin_const_t t = coap_pdu_get_token(sent);
   printf("NK:%d:", (int)reason);
+  if (!sent) { printf("-:N "); return; }     /* e.g. a Reset for a message no longer queued */
+  coap_bin_const_t t = coap_pdu_get_token(sent);
   show_tok(sent);
   printf(":%c ", (t.length == app_tok_len && memcmp(t.s, app_tok, app_tok_len) == 0) ? 'T' : 'F');
 }
@@ -232,19 +233,25 @@ static void e2e(void) {
   printf("TOK:");
   for (size_t i = 0; i < app_tok_len; i++) printf("%02x", app_tok[i]);
   fputc(' ', stdout);
+  int adl_ok = 1;
   if (!dir_b2) {
-    int ok = coap_add_data_large_request(cs, p, body_len, body, rel_c, NULL);
-    printf("ADL:%d ", ok);
+    adl_ok = coap_add_data_large_request(cs, p, body_len, body, rel_c, NULL);
+    printf("ADL:%d ", adl_ok);
   }
-  coap_mid_t mid = coap_send(cs, p);
-  printf("SEND:%d ", mid);
+  if (adl_ok) {
+    coap_mid_t mid = coap_send(cs, p);
+    printf("SEND:%d ", mid);
+  } else {
+    coap_delete_pdu(p);      /* the API refused: the application has nothing to send */
+    printf("NOSEND ");
+  }
   show_state();
 
   size_t next = 0;
   coap_tick_t last_activity = vn_now;
   const char *why = "idle";
   for (long steps = 0;; steps++) {
-    if (steps > 200000) { why = "steps"; break; }
+    if (steps > 400000 || vn_nout > 4 * (body_len / 16) + 600) { why = "steps"; break; }
     if (next < vn_nout) {
       size_t i = next++;
       char act = i < nsched ? sched[i] : '.';
